@@ -45,7 +45,9 @@ pub fn common_gcd_for_chunk_meta<T: NumberLike>(prefixes: &[Prefix<T>]) -> Optio
   let mut nontrivial_ranges_share_gcd: bool = true;
   let mut gcd = None;
   for p in prefixes {
-    if p.upper != p.lower {
+    // ranges are compared as unsigneds, like everywhere offsets are computed;
+    // float equality would call [-0.0, 0.0] a single value
+    if p.upper.to_unsigned() != p.lower.to_unsigned() {
       if gcd.is_none() {
         gcd = Some(p.gcd);
       } else {
@@ -88,7 +90,7 @@ pub fn use_gcd_prefix_optimize<T: NumberLike>(
 
 pub fn use_gcd_arithmetic<T: NumberLike>(prefixes: &[Prefix<T>]) -> bool {
   prefixes.iter()
-    .any(|p| p.gcd > T::Unsigned::ONE && p.upper != p.lower)
+    .any(|p| p.gcd > T::Unsigned::ONE && p.upper.to_unsigned() != p.lower.to_unsigned())
 }
 
 pub fn gcd_bits_required<U: UnsignedLike>(range: U) -> usize {
